@@ -28,6 +28,7 @@ import (
 	"strings"
 	"sync"
 	"sync/atomic"
+	"time"
 )
 
 const (
@@ -88,6 +89,17 @@ var (
 	verifLastTree  syntaxNode
 )
 
+// Under the race detector every atomic read-modify-write on a shared counter is a synchronisation
+// point: it would order evaluations of different goroutines after one another and thereby HIDE
+// unsynchronised accesses of the library from the detector. In race builds the hooks therefore touch
+// no shared memory at all on the evaluation / parse paths (no counters, no shared tick); the counters
+// are collected by the plain build.
+func verifAdd(p *uint64, n uint64) {
+	if !verifRace {
+		atomic.AddUint64(p, n)
+	}
+}
+
 func verifOptions() VerifOptions {
 	if o, ok := verifOpts.Load().(VerifOptions); ok {
 		return o
@@ -132,7 +144,7 @@ func verifPoisonContainer(c *bufferContainer) {
 	for i := range full {
 		full[i] = VerifPoison
 	}
-	atomic.AddUint64(&verifContainersPoisoned, 1)
+	verifAdd(&verifContainersPoisoned, 1)
 }
 
 func verifPoisonKeys(s *sort.StringSlice) {
@@ -143,7 +155,7 @@ func verifPoisonKeys(s *sort.StringSlice) {
 	for i := range full {
 		full[i] = VerifPoisonKey
 	}
-	atomic.AddUint64(&verifKeysPoisoned, 1)
+	verifAdd(&verifKeysPoisoned, 1)
 }
 
 func verifScrambleKeys(s *sort.StringSlice) {
@@ -151,7 +163,12 @@ func verifScrambleKeys(s *sort.StringSlice) {
 	if s == nil || mode == 0 || len(*s) < 2 {
 		return
 	}
-	n := atomic.AddUint64(&verifKeysScrambled, 1)
+	var n uint64
+	if verifRace {
+		n = uint64(len(*s)) + uint64(len((*s)[0])) // no shared counter under the race detector
+	} else {
+		n = atomic.AddUint64(&verifKeysScrambled, 1)
+	}
 	if mode == 4 {
 		mode = int(n%3) + 1
 	}
@@ -179,6 +196,13 @@ func verifMaybeYield() {
 	if every == 0 {
 		return
 	}
+	if verifRace {
+		// no shared tick: the low bits of the clock decide
+		if uint32(time.Now().UnixNano()>>4)%every == 0 {
+			runtime.Gosched()
+		}
+		return
+	}
 	// cheap LCG-ish hash of a shared tick: different goroutines see different values
 	t := atomic.AddUint64(&verifTick, 0x9E3779B97F4A7C15)
 	if uint32((t^(t>>29))%uint64(every)) == 0 {
@@ -188,6 +212,10 @@ func verifMaybeYield() {
 }
 
 func verifEnter(kind int) {
+	if verifRace {
+		verifMaybeYield()
+		return
+	}
 	switch kind {
 	case verifKindParse:
 		atomic.AddUint64(&verifParseCalls, 1)
@@ -213,6 +241,9 @@ func verifEnter(kind int) {
 
 func verifExit(kind int) {
 	verifMaybeYield()
+	if verifRace {
+		return
+	}
 	switch kind {
 	case verifKindParse:
 		atomic.AddInt64(&verifParseInFlight, -1)
@@ -228,7 +259,7 @@ func verifParsed(root syntaxNode) {
 	verifTreeMutex.Lock()
 	verifLastTree = root
 	verifTreeMutex.Unlock()
-	atomic.AddUint64(&verifTreesCaptured, 1)
+	verifAdd(&verifTreesCaptured, 1)
 }
 
 // VerifTreeHandle identifies a captured syntax tree.
